@@ -13,19 +13,19 @@ CHECKS = {
     "C13": dict(
         text="Partial ('nothing invalid is emitted'): every packet emission in the deframer is dominated by the length, minimum-size and "
              "(checksum on) CRC-equality guards; over-long accumulations are abandoned; after a recognised closing flag the state is "
-             "Synced and restarts with no collected bits (a rejected frame does not disturb the next); frame-length arithmetic is guarded. 'Every valid frame is recovered' is "
+             "Synced and restarts with no collected bits (a rejected frame does not disturb the next); frame-length arithmetic is guarded; the bytes pushed after the bit-fixing step flow from that step's result (what is emitted is what was validated). 'Every valid frame is recovered' is "
              "a round-trip value property and is not decided.",
         design="§4 C13", technique="guard-fact dominance on MIR + content-taint/guard analysis"),
     "C14": dict(
         text="Partial: writer/reader table agreement (each Sample impl and the AU pair use the same primitive type, width and byte "
              "order), each AuDecode phase consumes what it parsed, partial-read arithmetic of the byte sources is guarded, and a fast "
-             "path emitting freshly read bytes is dominated by carry-buffer emptiness, and carry bytes are dropped only after having been read. Identity of composed byte streams is not decided.",
+             "path emitting freshly read bytes is dominated by carry-buffer emptiness, and carry bytes are dropped only after having been read; a restart seeks to where the constructors positioned the file; no byte source reports EOF behind a test that depends on a possibly-empty output window. Identity of composed byte streams is not decided.",
         design="§4 C14", technique="sibling agreement of codec call tables + must-pass path rules + taint/guard analysis on MIR"),
     "C15": dict(
         text="Partial, audited: explicit-flow content taint (plus limited implicit flow into accumulators) over everything reachable "
              "from Block::work and the parsers; every content-tainted panic edge (checked subtraction/narrow arithmetic, division, "
              "explicit assert/panic, unwrap/expect, indexing/slice ops) must be discharged by a dominating guard, by a path-sensitive search over a counter field's None/0/>0 states, or be listed with a "
-             "reason in an exact audit table. Non-termination, dependency panics and 64-bit counter overflow are not decided.",
+             "reason in an exact audit table. 'Spins forever' is decided in its structural form only (no Again without possible progress, no already-satisfied wait without certain progress). Other non-termination, dependency panics and 64-bit counter overflow are not decided.",
         design="§4 C15", technique="interprocedural content-taint analysis + guard discharge on MIR, exact audit table"),
     "C03": dict(
         text="Structural: the protocol that justifies `unsafe impl Sync for Circ` has the required shape - raw memory and window "
@@ -39,24 +39,24 @@ CHECKS = {
         text="Partial: for derive-generated sync blocks chunk-independence holds by construction, checked on the generated MIR "
              "of every in-crate user and a generated family (lock-step iteration from 0, take(n), one process call per sample, "
              "no state written by work()). For hand-written blocks the bounded-copy rule and rate consistency (consume(a) with "
-             "produce(a/c) needs a multiple of c). Other carried-state arithmetic of hand-written blocks is not decided.",
+             "produce(a/c) needs a multiple of c), written-before-committed, counted consume, moved-out state restored, advanced copies stored back, fills committed, and no per-call limit/discard of state grown per sample. Other carried-state arithmetic of hand-written blocks is not decided.",
         design="§4 C08", technique="structural rules on macro-generated MIR over a generated program family"),
     "C12": dict(
         text="Partial: the stream stores only tags of committed samples and consume(0) removes none (central contract), and on "
              "the generated sync path input tags are selected by == loop index, re-emitted at that index and handed to every "
-             "produce(), for every arity of the generated family; hand-written rate changers divide forwarded positions by the same ratio on every path to the commit, and a forwarded tag list comes from the read_buf() whose window is consumed with it. Other index arithmetic of hand-written blocks is not decided.",
+             "produce(), for every arity of the generated family; hand-written rate changers divide forwarded positions by the same ratio on every path to the commit, and a forwarded tag list comes from the read_buf() whose window is consumed with it; the stream-side tag rules of C02 (key reduction, bounded removal, atomic commit, unambiguous selection, no early exit from the tag loop) run here too. Other index arithmetic of hand-written blocks is not decided.",
         design="§4 C12", technique="guard dominance + structural rules on macro-generated MIR"),
     "C19": dict(
         text="Programs quantified over: a generated family (sync, sync_tag x 1..3 inputs x 1..3 outputs x plain/default+into) and "
              "every derive user in the crate; each generated new()/work()/eof() is checked on its MIR (wiring and return order, "
              "windows on all streams, waits name the empty stream, n = min over all inputs then all outputs, same n to every "
-             "consume/produce, eof = conjunction), plus compile witnesses for constructor output order.",
+             "consume/produce, eof = conjunction; no content- or tag-dependent panic site in generated code), plus compile witnesses for constructor output order.",
         design="§4 C19", technique="structural rules on macro-generated MIR over a generated program family + compile_fail witnesses"),
     "C09": dict(
         text="Decides three of the four clauses statically: no stream window type occurs in any field, static, escaping "
              "closure or leak call (=> nothing is held after work()); no CFG path reaches `return Ok(Again)` without any "
              "possible stream or state effect; a WaitForStream verdict whose nearest controlling test is a plain "
-             "'window of self.G is short' names G. 'Consumes no more than offered' is a runtime guard (C01.R1).",
+             "'window of self.G is short' names G and asks for exactly the tested amount; no wait on an output while consumed input is held uncommitted; a wait that is already satisfied on its path needs certain progress on that path. 'Consumes no more than offered' is a runtime guard (C01.R1).",
         design="§4 C09", technique="type facts + effect-avoiding path search + guard/verdict agreement on MIR"),
     "C02": dict(
         text="Structural necessary conditions only: who-may-write on the stream's tag map (only commit adds, only consume "
@@ -66,7 +66,7 @@ CHECKS = {
     "C16": dict(
         text="Structural necessary conditions: checked subtractions in the Repeat counter are discharged by dominating "
              "guards; every finite source tests done() before any produce and never produces after done()==true "
-             "(sibling agreement); marker tags are created only under progress==0; Infinite never reports done; a read never pulls more bytes than the output window takes; the end of a repetition is decided only on read()==0 or byte-counter==0. "
+             "(sibling agreement); marker tags are created only under progress==0; Infinite never reports done; a read never pulls more bytes than the output window takes; the end of a repetition is decided only on read()==0 or byte-counter==0; no EOF behind a test that depends on a possibly-empty output window. "
              "Emission counts for data larger than the buffer are values and are not decided.",
         design="§4 C16", technique="guard-fact dominance + must-pass path rules on MIR"),
     "C01": dict(
@@ -95,7 +95,7 @@ CHECKS = {
     "C05": dict(
         text="Static classification of every exit of the per-block thread loop of the multithreaded runner by "
              "flag-sensitive path search on MIR, plus spawn/join structure and lock-free waits. Necessary "
-             "conditions for termination with nothing dropped; does not decide schedule-independence of results.",
+             "conditions for termination with nothing dropped (incl. no block parked on its output while holding consumed input); does not decide schedule-independence of results.",
         design="§4 C05", technique="flag-sensitive CFG path search on MIR"),
     "C06": dict(
         text="Static path analysis of Graph::run (no Ok return in a pass with a live verdict; retirement discipline) "
@@ -105,7 +105,7 @@ CHECKS = {
     "C07": dict(
         text="Static error-discipline and cancellation analysis of both runners: no block error is unwrapped, Err of "
              "work()/joined threads flows to run()'s return value, every work() cycle polls the cancel token with an "
-             "exiting true edge, all threads joined on all paths.",
+             "exiting true edge, all threads joined on all paths; a recorded failure survives the join loop and nothing that can panic runs before it is returned.",
         design="§4 C07", technique="type-driven call-site rule + taint-to-return + cycle/poll analysis on MIR"),
 }
 
